@@ -26,6 +26,25 @@ func e2eWorkDir(prefix string) (string, error) {
 	return os.MkdirTemp(work, prefix)
 }
 
+// otherFSDir returns a fresh directory on a file system other than the one holding the process's temporary
+// directory (a cache file kept on a volume of its own is an ordinary deployment), or "" when there is none.
+func otherFSDir(prefix string) string {
+	var tmp syscall.Stat_t
+	if syscall.Stat(os.TempDir(), &tmp) != nil {
+		return ""
+	}
+	for _, cand := range []string{"/dev/shm", "/run/shm"} {
+		var st syscall.Stat_t
+		if syscall.Stat(cand, &st) != nil || st.Dev == tmp.Dev {
+			continue
+		}
+		if d, err := os.MkdirTemp(cand, prefix); err == nil {
+			return d
+		}
+	}
+	return ""
+}
+
 // waitStats polls the stats API until cond holds.
 func waitStats(p *vflowProc, d time.Duration, cond func(*flowStats) bool) (*flowStats, bool) {
 	deadline := time.Now().Add(d)
